@@ -1,6 +1,7 @@
 import HpxVerif.Lemmas.BmocAnd
 import HpxVerif.Lemmas.BmocNot
 import HpxVerif.Lemmas.BmocXor3
+import HpxVerif.Lemmas.BmocOr2
 import HpxVerif.Lemmas.BmocCanon
 
 /-!
@@ -12,8 +13,7 @@ well-formed MOCs and its result is again a MOC (all flags full); **`not` is the 
 in-range MOC of depth ≤ 29** (`not_sem`; through `go_up` / `go_down` / `dd_4_go_up`, the latter by the highest differing
 bit pair of the two cell numbers), its result is a well-formed in-range MOC (`not_is_moc`, `not_wf`), `not ∘ not = id` and
 `A ∩ Aᶜ = ∅` as corollaries.  **`xor` is the symmetric difference** (`xor_sem`, public operator with `pack`; `xor_self_empty`).
-Open statements (model validated by the correspondence check on the exhaustive one- and
-two-level universes and random trees, theorems not yet proved): `or_sem`.
+**`or` is the union** (`or_sem`, public operator with `pack`; `or_not_allsky`).  All four operators are proved.
 **Canonical form** (`moc_canonical`, `bmoc_canonical`): well-formed, in-range, all-full lists without four full siblings
 are determined by the set they denote; `pack` outputs are canonical (`pack_canonical`), and so are the results of `and`
 and `not`, which do not call `pack` (`and_canonical`, `not_canonical`); hence `not (not a) = a`, commutativity,
@@ -187,5 +187,22 @@ theorem pack_eq_of_same_set (dm : Nat) (hdm : dm ≤ 29) (a b : List Cell) (wa :
 
 /-- the hypotheses are satisfiable: a three-level canonical MOC -/
 example : Canonical 2 exCanonMoc := exCanonMoc_canonical
+
+/-- **`or` is the union on plain MOCs** (public operator, `pack` included): the result is a plain MOC containing exactly
+    the deepest-level cells that belong to one of the operands -/
+theorem or_sem (A B : BMOC) (D : Nat) (hmax : max A.dmax B.dmax = D) (hD : D ≤ 29)
+    (hwA : WF D A.cells) (hwB : WF D B.cells) (hrA : ∀ c ∈ A.cells, InR c) (hrB : ∀ c ∈ B.cells, InR c)
+    (mA : IsMoc A.cells) (mB : IsMoc B.cells) :
+    ∃ R, BMOC.or A B = some R ∧ IsMoc R.cells ∧ ∀ x, mem D R.cells x ↔ (mem D A.cells x ∨ mem D B.cells x) := by
+  obtain ⟨R, hR, _⟩ := bmoc_or_spec A B D hmax hD hwA hwB hrA hrB
+  obtain ⟨h2, h3⟩ := bmoc_or_moc A B D hmax hD hwA hwB hrA hrB mA mB R hR
+  exact ⟨R, hR, h2, h3⟩
+
+/-- `a or not a` is the whole sky -/
+theorem or_not_allsky (A : BMOC) (hD : A.dmax ≤ 29) (hv : ∀ r ∈ A.entries, ValidRaw A.dmax r) (hw : WF A.dmax A.cells)
+    (hr : ∀ c ∈ A.cells, InR c) (mA : IsMoc A.cells) (x : Nat) (hx : x < 12 * 4 ^ A.dmax) :
+    Tri.max (stOf A.dmax A.cells x) (stOf A.dmax (notCells A.cells) x) = .full := by
+  rw [(notCells_spec A.dmax hD A.cells hw hr).1 x hx]
+  rcases stOf_moc mA (D := A.dmax) x with h1 | h1 <;> simp [h1, Tri.not, Tri.max]
 
 end Hpx.C07
